@@ -196,6 +196,8 @@ fn contents(max_lines: usize) -> Vec<Vec<u8>> {
     // CR LF line endings and a final line without terminator holding the marker
     out.push(b"a\r\nb\r\n".to_vec());
     out.push(b"a\n$NetBSD$".to_vec());
+    out.push(b"a\n# $NetBSD".to_vec());
+    out.push(b"$NetBSD".to_vec());
     out
 }
 
